@@ -299,6 +299,13 @@ func (ex *Exec) selectInstr(st *State, in *ssa.Select, pos string) {
 			v := p.Fresh("recv", ex.tm.SortOf(el))
 			ex.facts = append(ex.facts, ex.tm.InRange(v, el, 0))
 			res = append(res, v)
+			// a case that fires on ctx.Done() is an observation that the context has ended: recorded in the ghost
+			// variable ctxEnded where a contract declares it (the choice among the cases stays free)
+			if c, ok := s.Chan.(*ssa.Call); ok && c.Call.IsInvoke() && c.Call.Method.Name() == "Done" {
+				if _, declared := ex.P.CS.Ghosts["ctxEnded"]; declared {
+					st.ghost["ctxEnded"] = p.Ite(p.Eq(idx, p.Int(int64(i))), p.True(), ex.ghostVar(st, "ctxEnded"))
+				}
+			}
 		} else {
 			// a send that is chosen appends to the ghost sequence
 			ch := ex.term(st, s.Chan)
